@@ -17,7 +17,7 @@ from ..common import Ctx, pmap, jhash
 from .. import matlib
 
 FRAMES = {}
-PATHS = ["sugar", "formula", "spec", "materializer"]
+PATHS = ["sugar", "formula", "spec", "materializer", "attached", "sugar-attached"]
 OUTPUTS = ["pandas", "numpy", "sparse"]
 MATS = ["pandas", "narwhals-pandas", "narwhals-arrow"]
 ALL = [(p, o, m) for p in PATHS for o in OUTPUTS for m in MATS]
@@ -37,7 +37,10 @@ def build(formula, data, path, output, mat, case):
     if path == "formula":
         return Formula(formula).get_model_matrix(data, context={}, materializer=matname, **kw)
     if path == "spec":
-        return ModelSpec(formula=Formula(formula), materializer=matname, **kw).get_model_matrix(data, context={})
+        return ModelSpec.from_spec(Formula(formula), materializer=matname, **kw).get_model_matrix(data, context={})
+    if path in ("attached", "sugar-attached"):      # the spec attached to an earlier result, applied to the same data
+        spec = model_matrix(formula, data, context={}, materializer=matname, **kw).model_spec
+        return spec.get_model_matrix(data, context={}) if path == "attached" else model_matrix(spec, data, context={})
     return FormulaMaterializer.for_materializer(matname)(data, context={}).get_model_matrix(formula, **kw)
 
 
@@ -158,6 +161,80 @@ def contrast_leg(ctx: Ctx, maxn: int):
         ctx.nontrivial.add(jhash(["contrast", c["kind"], c["n"], c.get("o")]))
         for b in bad:
             ctx.violation({k: b[k] for k in ("formula", "fid", "path", "output", "materializer", "full_rank", "na", "cluster")}, b, kind="replay")
+
+
+# ------------------------------------------------------------------ structured formulas with missing data (MC_Missing)
+STRUCTURED = {4: "b ~ a", 5: "b ~ A | a", 8: "a ~ 0 | A", 9: "a | 0 + b", 13: "b ~ 0 + C(A, contr.sum) | C(A, contr.sum) + a",
+              14: "C(A, contr.helmert) | 0 + C(A, contr.helmert) + C(A, contr.helmert):b"}
+
+
+def replay_structured(case):
+    """One (structured formula, null pattern, policy) of MC_Missing on rotating entry point x output x materializer combinations:
+    every part must have the model's rows, names and cells (so the parts are dropped jointly whichever way the build is requested)."""
+    import pyarrow
+
+    from .c06 import frame
+    from .c07 import shape_and_parts
+
+    if case["fid"] not in STRUCTURED or case["drop0"] or case["fails"]:
+        return [], 0
+    formula = STRUCTURED[case["fid"]]
+    df = frame(case["nulls"], "default")
+    tb = pyarrow.Table.from_pandas(df)
+    h = int(jhash([case["fid"], case["nulls"], case["na"]])[:8], 16)
+    combos = [ALL[(h + 11 * i) % len(ALL)] for i in range(4)]
+    kept = [k - 1 for k in case["kept"]]
+    bad, n = [], 0
+    for path, output, mat in dict.fromkeys(combos):
+        n += 1
+        base = {"formula": formula, "fid": f"missing-{case['nulls']}", "path": path, "output": output, "materializer": mat, "full_rank": True, "na": case["na"], "cluster": False}
+        try:
+            res = build(formula, tb if mat == "narwhals-arrow" else df, path, output, mat, {"full_rank": True, "na": case["na"], "cluster": False})
+            _, parts = shape_and_parts(res)
+            if len(parts) != len(case["parts"]):
+                bad.append({**base, "why": "number of parts", "observed": len(parts), "expected": len(case["parts"])})
+                continue
+            for i, mm in enumerate(parts):
+                names, cells, _, _, arr = matlib.alpha_matrix(mm, output)
+                exp = case["parts"][i]
+                if arr.shape[0] != len(kept):
+                    bad.append({**base, "why": f"rows-of-part-{i}", "observed": int(arr.shape[0]), "expected": len(kept)})
+                elif kept and names != exp["names"]:
+                    bad.append({**base, "why": f"names-of-part-{i}", "observed": names, "expected": exp["names"]})
+                elif kept and cells != exp["cells"]:
+                    bad.append({**base, "why": f"cells-of-part-{i}", "observed": cells, "expected": exp["cells"]})
+        except Exception as e:  # noqa
+            bad.append({**base, "why": "exception", "observed": type(e).__name__ + ": " + str(e)[:200]})
+    return bad, n
+
+
+def structured_leg(ctx: Ctx, maxnulls: int):
+    from ..tlc import MachineryError, read_emitted, run_tlc, workdir
+
+    out = workdir("c05") / "structured.ndjson"
+    out.unlink(missing_ok=True)
+    cfg = (f"SPECIFICATION Spec\nCONSTANTS\n  Emit = TRUE\n  MaxNulls = {maxnulls}\n  FormulaSet = \"c07\"\n"
+           "INVARIANT DropExact\nINVARIANT AloneEqualsJoint\nINVARIANT EmitCase\n")
+    r = run_tlc("MC_Missing", cfg, tag="c05s", env={"OUT_FILE": str(out)}, timeout=3400)
+    if r.violated:
+        ctx.model_violation(r, "MC_Missing (C05)")
+    ctx.add_tlc(r, f"structured formulas x null patterns (<= {maxnulls} nulls per column) x policy for the entry point / output / materializer agreement leg")
+    cases = read_emitted(out)
+    out.unlink()
+    if len(cases) != r.distinct:
+        raise MachineryError(f"emission incomplete: {len(cases)} of {r.distinct}")
+    res = pmap("harness.props.c05", "replay_structured", cases, chunk=60)
+    done = 0
+    for c, (bad, n) in zip(cases, res):
+        ctx.traces += n
+        ctx.evaluations += n
+        done += n
+        if n and c["kept"] and sum(1 for k in "abA" if c["nulls"][k]) >= 1:
+            ctx.nontrivial.add(jhash(["structured", c["fid"], c["nulls"], c["na"]]))
+        for b in bad:
+            ctx.violation({k: b[k] for k in ("formula", "fid", "path", "output", "materializer", "full_rank", "na", "cluster")}, b, kind="replay")
+    if done < 100:
+        raise MachineryError("structured leg: too few executed cases")
 
 
 # ------------------------------------------------------------------ registry / dispatch histories (Registry.tla)
@@ -281,14 +358,14 @@ def registry_leg(ctx: Ctx, maxops: int):
 
 def run(ctx: Ctx) -> None:
     global FRAMES, PER_CASE
-    ctx.rule = ("the (formula, frame, options) enumeration of MC_Materialize; per case 6 (quick) or all 36 (thorough, 1/4 slice) combinations of entry "
-                "point x output x materializer/data form, rotated so that every combination is exercised; every contrast coding of MC_Contrasts (n <= 4 / 6) on all 36 combinations; non-trivial = >= 2 columns, >= 2 rows")
+    ctx.rule = ("the (formula, frame, options) enumeration of MC_Materialize; per case 6 (quick) or all 54 (thorough, 1/4 slice) combinations of entry "
+                "point x output x materializer/data form, rotated so that every combination is exercised; every contrast coding of MC_Contrasts (n <= 4 / 6) on all 54 combinations; non-trivial = >= 2 columns, >= 2 rows")
     ctx.trusted = ["gamma (incl. pyarrow.Table.from_pandas) / alpha of the materializer family", "TLC"]
     if ctx.quick:
         PER_CASE = 6
         FRAMES, cases = matlib.run_enumeration(ctx, "c05", 2, "all", ["UnreducedLayout", "ScaleOnce"], slice_mod=3)
     else:
-        PER_CASE = 36
+        PER_CASE = 54
         FRAMES, cases = matlib.run_enumeration(ctx, "c05", 2, "all", ["UnreducedLayout", "ScaleOnce"], slice_mod=2)
     res = pmap("harness.props.c05", "replay_case", cases, chunk=60)
     seen = set()
@@ -306,6 +383,7 @@ def run(ctx: Ctx) -> None:
     ctx.exhaustive = True
     contrast_leg(ctx, 4 if ctx.quick else 6)
     registry_leg(ctx, 4 if ctx.quick else 5)
+    structured_leg(ctx, 1 if ctx.quick else 2)
     # leg T: random cases on random (entry point, output, materializer) combinations, validated by TLC
     from .. import mattrace
 
